@@ -25,12 +25,15 @@ type Ev struct {
 }
 
 type Scenario struct {
-	PeriodNs  int64   `json:"period_ns"`
-	Windows   []int   `json:"windows"` // multiples of the period
-	PrecNs    int64   `json:"prec_ns"`
-	Compute   []Ev    `json:"compute"` // compute task: adv / cmp
-	Refresh   []Ev    `json:"refresh"` // refresh task: adv / ref
-	Split     bool    `json:"split"`   // two tasks (concurrent) or one (refresh events merged by time)
+	PeriodNs int64 `json:"period_ns"`
+	Windows  []int `json:"windows"` // multiples of the period
+	PrecNs   int64 `json:"prec_ns"`
+	Compute  []Ev  `json:"compute"` // compute task: adv / cmp
+	Refresh  []Ev  `json:"refresh"` // refresh task: adv / ref
+	Split    bool  `json:"split"`   // two tasks (concurrent) or one (refresh events merged by time)
+	// Refresh2: a second refresher (the update stream's Reset refreshes the
+	// same Latency as the periodic task does): adv / ref
+	Refresh2  []Ev    `json:"refresh2,omitempty"`
 	JitterPct float64 `json:"jitter_pct,omitempty"`
 }
 
@@ -81,6 +84,18 @@ func (H) Generate(rng *simrt.Rand, prop, tier string) (any, simrt.Config) {
 			sc.Compute = append(sc.Compute, Ev{K: "cmp", N: l})
 		}
 	}
+	if rng.Chance(0.35) {
+		// resets arrive at arbitrary instants, sometimes exactly on a tick
+		var t2 int64
+		for i := 1 + rng.Intn(5); i > 0 && t2 < total; i-- {
+			d := int64(rng.Intn(int(3 * sc.PeriodNs)))
+			if rng.Chance(0.3) {
+				d = sc.PeriodNs * int64(1+rng.Intn(3))
+			}
+			t2 += d
+			sc.Refresh2 = append(sc.Refresh2, Ev{K: "adv", N: d}, Ev{K: "ref"})
+		}
+	}
 	return sc, cfg
 }
 
@@ -106,6 +121,11 @@ func (H) Shrinks(s any) []any {
 			c.Compute = append(c.Compute[:i], c.Compute[i+1:]...)
 			out = append(out, c)
 		}
+	}
+	if len(sc.Refresh2) > 0 {
+		c := clone()
+		c.Refresh2 = nil
+		out = append(out, c)
 	}
 	if sc.Split {
 		c := clone()
@@ -145,15 +165,11 @@ func (H) Execute(x *common.Exec, s any) {
 	// that the two tasks interleave in time order.
 	base := time.Now()
 	old := latency.Now
-	var lastCompute, lastRefresh int64
+	var last [16]int64 // per task id: the clock reading its latest call took
 	latency.Now = func() time.Time {
 		v := int64(time.Since(base)) + int64(time.Hour)
-		if t := simrt.Current(); t != nil {
-			if t.ID == 0 {
-				lastCompute = v
-			} else {
-				lastRefresh = v
-			}
+		if t := simrt.Current(); t != nil && t.ID < len(last) {
+			last[t.ID] = v
 		}
 		return time.Unix(0, v)
 	}
@@ -170,7 +186,6 @@ func (H) Execute(x *common.Exec, s any) {
 	var samples []sample
 	var exports []export
 	var refreshAt []int64
-	curRef := 0
 	x.R.Go("compute", func() {
 		for _, e := range sc.Compute {
 			switch e.K {
@@ -182,22 +197,37 @@ func (H) Execute(x *common.Exec, s any) {
 				now := int64(time.Since(base)) + int64(time.Hour)
 				l.Compute(time.Unix(0, now-e.N))
 				// the latency is measured against the reading Compute took
-				samples = append(samples, sample{at: lastCompute, lat: lastCompute - (now - e.N)})
+				me := simrt.Current().ID
+				samples = append(samples, sample{at: last[me], lat: last[me] - (now - e.N)})
 			}
 		}
 	})
-	x.R.Go("refresh", func() {
-		for _, e := range sc.Refresh {
-			switch e.K {
-			case "adv":
-				simrt.Sleep(time.Duration(e.N))
-			case "ref":
-				l.UpdateReset(recMeta{cur: &exports, ref: &curRef})
-				refreshAt = append(refreshAt, lastRefresh)
-				curRef++
+	// each refresher records its own refreshes; they are merged afterwards
+	type refRec struct {
+		at   int64
+		exps []export
+	}
+	refs := make([][]refRec, 2)
+	refresher := func(k int, evs []Ev) func() {
+		return func() {
+			me := simrt.Current().ID
+			for _, e := range evs {
+				switch e.K {
+				case "adv":
+					simrt.Sleep(time.Duration(e.N))
+				case "ref":
+					var exps []export
+					zero := 0
+					l.UpdateReset(recMeta{cur: &exps, ref: &zero})
+					refs[k] = append(refs[k], refRec{at: last[me], exps: exps})
+				}
 			}
 		}
-	})
+	}
+	x.R.Go("refresh", refresher(0, sc.Refresh))
+	if len(sc.Refresh2) > 0 {
+		x.R.Go("refresh-from-reset", refresher(1, sc.Refresh2))
+	}
 	out := x.R.Schedule(false, nil)
 	x.R.AcquireEnd()
 	if out != simrt.AllDone {
@@ -208,8 +238,18 @@ func (H) Execute(x *common.Exec, s any) {
 		x.Violate("C15/latency-deadlock", "Compute/UpdateReset blocked: %s", x.R.Summary())
 		return
 	}
-	// exports carry the refresh index through their position: re-attribute by order
-	// (every export was appended during exactly one UpdateReset, in order).
+	for _, rs := range refs {
+		for _, r := range rs {
+			for _, e := range r.exps {
+				e.ref = len(refreshAt)
+				exports = append(exports, e)
+			}
+			refreshAt = append(refreshAt, r.at)
+		}
+	}
+	if len(sc.Refresh2) > 0 {
+		x.Fault("second-refresher-concurrent-with-periodic-refresh")
+	}
 	x.NonTrivial = len(samples) > 2 && len(refreshAt) > 2
 	for _, e := range sc.Refresh {
 		if e.K == "adv" {
